@@ -4,6 +4,10 @@ import Driver.TabOracle
 import Driver.C07
 import Driver.VisD
 import Driver.WebD
+import Driver.C10
+import Driver.C11
+import Driver.C18
+import Driver.C16
 import IGVerif.Gen.Facts
 open Drv Lean
 
@@ -19,8 +23,13 @@ def genFor (prop tier : String) (seed : Nat) : Except String (Array Case) :=
   | "C07" => pure (genC07Cases tier seed)
   | "C08" => pure (genVisCases tier seed "c08")
   | "C09" => pure (genVisCases tier seed "c09")
+  | "C16" => pure (genC16Cases tier seed)
   | "C17" => pure (genC17Cases tier seed)
+  | "C18" => pure (genC18Cases tier seed)
   | "C20" => pure (genC20Cases tier seed)
+  | "C10" => pure (genC10Cases tier seed)
+  | "C11" => pure (genC11Cases tier seed)
+  | "C12" => pure (genC12Cases tier seed)
   | "C13" => pure (genC13Cases tier seed)
   | "C14" => pure (genC14Cases (!IGVerif.Gen.converterLockCalls.isEmpty) tier seed)
   | "C15" => pure (genC15Cases tier seed)
@@ -38,8 +47,13 @@ def judgeFor (prop : String) : Except String (Case → ObsLine → Verdict) :=
   | "C07" => pure judgeC07
   | "C08" => pure (judgeVis true)
   | "C09" => pure (judgeVis true)
+  | "C16" => pure judgeParse
   | "C17" => pure (judgeVis true)
+  | "C18" => pure judgeParse
   | "C20" => pure (judgeVis true)
+  | "C10" => pure judgeC10
+  | "C11" => pure judgeC11
+  | "C12" => pure judgeC12
   | "C13" => pure judgeC13
   | "C14" => pure judgeC14
   | "C15" => pure judgeC15
